@@ -691,11 +691,14 @@ impl World for RngWorld {
             if let Some(kind) = anomaly {
                 out.probe(&format!("anomaly.{}", kind));
                 let second = guarded(|| self.call(*ep, *arg));
-                let same = match &second {
-                    Ok(Ok(c2)) => c2.component == co.component,
-                    _ => false,
-                };
-                let zero = !co.component.is_empty() && co.component.iter().all(|b| *b == 0);
+                // evidence only from values wide enough that chance cannot produce it (2^-128)
+                let wide = co.component.len() >= 16;
+                let same = wide
+                    && match &second {
+                        Ok(Ok(c2)) => c2.component == co.component,
+                        _ => false,
+                    };
+                let zero = wide && co.component.iter().all(|b| *b == 0);
                 if same || zero {
                     let what = if kind == "drew" {
                         format!("{} drew {} bytes from the generator during the call (documented: at least {})", info.name, drawn.len(), co.min_draw)
@@ -722,7 +725,7 @@ impl World for RngWorld {
                 }
             }
         }
-        if co.component.len() >= 8 && co.component.iter().all(|b| *b == 0) {
+        if co.component.len() >= 16 && co.component.iter().all(|b| *b == 0) {
             out.violate("C11", "c11.nonzero", site(&[("entry", info.name), ("configuration", mode)]), format!("{} returned an all-zero {}-byte value", info.name, co.component.len()));
         }
         if info.history {
